@@ -666,7 +666,7 @@ def mechanisms(script, out):
             if lf[0] == 'time' and times and lf[1] < times[0]: m.add("time_below_first")
         if 'and' in str(L): m.add("and")
         if 'or' in str(L): m.add("or")
-    now, d_prev = s.start, 0
+    now, d_prev, nadds = s.start, 0, len(s.pre)
     for st in bl["B"]["steps"]:
         o = st["op"]
         if o[0] == 3:
@@ -674,9 +674,11 @@ def mechanisms(script, out):
             elif o[1] < now: m.add("paused_add_below_now")
             else:
                 m.add("paused_add_above_now")
-                nxt = [t for (_, t) in B["log"][d_prev:d_prev + 1]]
-                if nxt and o[1] < nxt[0]: m.add("paused_add_before_next_event")
+                pending = ms_sub(ms(accepted(B["adds"][:nadds])), ms(handled(B["log"][:d_prev])))
+                if pending and o[1] < min(t for (t, _) in pending): m.add("paused_add_before_next_event")
+            nadds += 1
             continue
+        nadds = st["nadds"]
         d = st["dispatched"]
         if d < len(B["log"]) and d > 0 and B["log"][d - 1][1] == B["log"][d][1]:
             m.add("step_cut_inside_tie")
